@@ -160,6 +160,18 @@ def run(ctx):
         tops = set()
         for f in factors:
             b = match(pat("self._ejks.ejks[$t][$k]"), f) or match(pat("self._ejks._ejks[$t][$k]"), f)
+            if b is None and isinstance(f, ast.Subscript):
+                # the matrix may be bound to a local first: resolve it (loop-locally, then function-wide)
+                mtx = ssc.resolve(_subst(f.value, env))
+                b2 = match(pat("self._ejks.ejks[$t]"), mtx) or match(pat("self._ejks._ejks[$t]"), mtx)
+                if b2 is not None:
+                    b = {"t": b2["t"], "k": f.slice}
+                else:
+                    pos = match(pat("list($d.values())[$i]"), mtx) or match(pat("tuple($d.values())[$i]"), mtx) or match(pat("[*$d.values()][$i]"), mtx)
+                    if pos is not None and "ejks" in txt(pos["d"]):
+                        o.violated(sw, aug, f"the target matrix is selected by POSITION (`{txt(mtx)[:70]}`): that is the insertion order of the caller's dict, not the topology of the edge "
+                                            "being swapped - a target given in another order is read from the wrong topology's matrix (forbidden pairings are created)")
+                        return
             if b is None:
                 o.undecided(f"numerator factor `{txt(f)}` not recognised", sw, aug)
                 return
@@ -222,15 +234,21 @@ def run(ctx):
         for r in trues:
             guard = None
             val = r.value
+            is_rand = lambda x: isinstance(x, ast.Call) and prog.external(sw.module, x.func) == "random.random"
             if isinstance(val, ast.Constant) and val.value is True:
-                g = [a for a in spar.ancestors(r) if isinstance(a, ast.If)]
-                if not g:
-                    o.violated(sw, r, "`return True` is unconditional")
+                # the acceptance test is a path condition of `return True` (enclosing if, or a preceding `if not ...: return False`)
+                conds = [(ssc.resolve(t_, keep=[top]), p_) for t_, p_ in rules.path_conditions(spar, r)]
+                conds = [(t_, p_) for t_, p_ in conds if any(is_rand(x) for x in ast.walk(t_))]
+                if not conds:
+                    if not rules.path_conditions(spar, r):
+                        o.violated(sw, r, "`return True` is unconditional")
+                    else:
+                        o.violated(sw, r, f"acceptance `{txt(rules.path_conditions(spar, r)[-1][0])}` is not a comparison of the Metropolis ratio with a uniform draw")
                     continue
-                guard, neg = g[0].test, spar.branch_of(r, g[0]) == "orelse"
+                guard, neg = conds[-1][0], not conds[-1][1]
             else:
-                guard, neg = val, False
-            pv = rules.compare_with_pivot(guard, lambda x: isinstance(x, ast.Call) and prog.external(sw.module, x.func) == "random.random", negated=neg)
+                guard, neg = ssc.resolve(val, keep=[top]), False
+            pv = rules.compare_with_pivot(guard, is_rand, negated=neg)
             if pv is None:
                 o.violated(sw, r, f"acceptance `{txt(guard)}` is not a comparison of the Metropolis ratio with a uniform draw")
                 continue
@@ -302,9 +320,10 @@ def run(ctx):
         if aug_top and dl and len([n for n in ast.walk(dl[0]) if isinstance(n, ast.AugAssign)]) == 1:
             top = txt(aug_top[0].target)
             bottom = txt([n for n in ast.walk(dl[0]) if isinstance(n, ast.AugAssign)][0].target)
-            cmps = [n for n in astx.walk_fn(sw.node) if isinstance(n, ast.Compare) and any(isinstance(x, ast.Call) and prog.external(sw.module, x.func) == "random.random" for x in ast.walk(n))]
+            is_rand_ = lambda x: isinstance(x, ast.Call) and prog.external(sw.module, x.func) == "random.random"
+            cmps = [n for n in astx.walk_fn(sw.node) if isinstance(n, ast.Compare) and any(is_rand_(x) for x in ast.walk(ssc.resolve(n, keep=[top, bottom])))]
             if len(cmps) == 1:
-                pv = rules.compare_with_pivot(cmps[0], lambda x: isinstance(x, ast.Call))
+                pv = rules.compare_with_pivot(ssc.resolve(cmps[0], keep=[top, bottom]), is_rand_)
                 ratio = rules.term_of(pv[1], ssc, keep=[top, bottom]) if pv else None
                 if ratio is not None and ratio == tm.div(tm.sym(top), tm.sym(bottom)):
                     o.holds(sw, cmps[0], f"ratio = {top} / {bottom}")
